@@ -472,8 +472,27 @@ def choice_edit(draw, spec):
             cands.append((n, "implementation_details"))
         if e["cls"] == "BoaviztaCloudServer":
             cands.append((n, "instance_type"))
+        if e["cls"] == "GenAIModel":
+            cands.append((n, "model_name"))
+            cands.append((n, "provider+model_name"))
     n, a = draw(st.sampled_from(sorted(cands)))
     e = spec["objs"][n]
+    if a in ("model_name", "provider+model_name"):
+        # models that fit in the GPU server's memory (a bigger one makes the target model invalid: both sides reject)
+        srv = spec["objs"][e["server"]]
+        cap_gb = srv.get("compute", [4.0])[0] * srv.get("ram_per_gpu", [80.0])[0] * \
+            srv.get("server_utilization_rate", [1.0])[0]
+        fits = [(p_, m_) for p_, m_, tot in genai_choices() if 1.2 * tot * 1e9 * 16 / 8e9 < cap_gb * 0.9] \
+            or [(e["provider"], e["model_name"])]
+        if a == "model_name":
+            same = [m_ for p_, m_ in fits if p_ == e["provider"]] or [e["model_name"]]
+            return dict(op="choice", obj=n, attr="model_name", val=draw(st.sampled_from(same)))
+        p_, m_ = draw(st.sampled_from(fits))
+        if p_ == e["provider"]:
+            return dict(op="choice", obj=n, attr="model_name", val=m_)
+        # the provider can only change together with a compatible model, in one update
+        return dict(op="group", edits=[dict(op="choice", obj=n, attr="provider", val=p_),
+                                       dict(op="choice", obj=n, attr="model_name", val=m_)])
     if a == "server_type":
         allowed = ["autoscaling", "on-premise", "serverless"]
         if e.get("fixed_nb_of_instances") is not None:
@@ -635,11 +654,12 @@ def group_edit(draw, spec):
     cur = spec
     for _ in range(draw(st.integers(2, 3))):
         e = draw(simple_edit(cur))
-        key = (e["obj"], E._attr_of(e))
-        if key in seen:
+        parts = e["edits"] if e["op"] == "group" else [e]
+        if any((x["obj"], E._attr_of(x)) in seen for x in parts):
             continue
-        seen.add(key)
-        subs.append(e)
+        for x in parts:
+            seen.add((x["obj"], E._attr_of(x)))
+            subs.append(x)
         cur = E.apply_spec(cur, e)
     if len(subs) < 2:
         return subs[0]
